@@ -41,6 +41,13 @@ Theorem C14_formerly_leaking_reset :
 Proof. exact formerly_leaking_reset. Qed.
 Print Assumptions C14_formerly_leaking_reset.
 
+(* the caches that survive resetCore by design (formatCache, regexCache) are filled by functions that mention no
+   field of struct interp but the cache itself and program constants: an entry cannot depend on Chars, the
+   modes, CONVFMT or anything else a later Config or run can change *)
+Theorem C14_caches_config_independent : caches_config_independent = true.
+Proof. exact caches_config_independent_holds. Qed.
+Print Assumptions C14_caches_config_independent.
+
 (* ---- layer (b): all histories ---- *)
 
 (* reuse_eq_fresh, FULL statement: for every reachable state g, whether or not ResetVars (rv) / ResetRand (rr)
